@@ -70,9 +70,10 @@ Section OciDig.
   Hypothesis U_dig : forall g, k_dig (U g) = g.
   Variable B : N -> blob.
 
-  (* a reference is never another node's digest string *)
-  Definition wf2_op (o : op) : Prop :=
-    wf_op U B o /\ match o with Tag d (RDig g) => g = d_dig d | _ => True end.
+  (* (Store.Tag refuses another content's digest string as reference since 2b70301, so the
+     earlier extra hypothesis "a reference is never another node's digest string" is gone:
+     wf2_op is wf_op) *)
+  Definition wf2_op (o : op) : Prop := wf_op U B o /\ True.
 
   (* digest-string entries are well formed; a stored manifest has one *)
   Definition dwf (t : list (ref * desc)) : Prop :=
@@ -92,7 +93,8 @@ Section OciDig.
                   end
     | Tag d r => match r with
                  | REmpty => DNone
-                 | _ => if is_some (get N.eqb (d_dig d) (o_blobs st)) then DSet (d_dig d) d else DNone
+                 | _ => if foreign_digest_ref d r then DNone
+                        else if is_some (get N.eqb (d_dig d) (o_blobs st)) then DSet (d_dig d) d else DNone
                  end
     | Delete d => DDel (gk d)
     | _ => DNone
@@ -108,11 +110,11 @@ Section OciDig.
       change (dent (r_index (oci_tag d (RDig (d_dig d)) (o_res st))) g = (if d_dig d =? g then Some d else dent (r_index (o_res st)) g)).
       rewrite r_index_oci_tag, dent_spec_oci_tag. destruct (d_dig d =? g); auto.
     - destruct (get N.eqb (d_dig d) (o_blobs st)); auto.
-    - destruct r as [m|g0|]; auto.
+    - destruct r as [m|g0|]; cbn [foreign_digest_ref]; auto.
       + destruct (is_some (get N.eqb (d_dig d) (o_blobs st))); simpl; auto.
         change (dent (r_index (oci_tag d (RName m) (o_res st))) g = (if d_dig d =? g then Some d else dent (r_index (o_res st)) g)).
         now rewrite r_index_oci_tag, dent_spec_oci_tag.
-      + simpl in Hw2. subst g0.
+      + destruct (g0 =? d_dig d) eqn:Eg; cbn [negb]; auto. apply N.eqb_eq in Eg. subst g0.
         destruct (is_some (get N.eqb (d_dig d) (o_blobs st))); simpl; auto.
         change (dent (r_index (oci_tag d (RDig (d_dig d)) (o_res st))) g = (if d_dig d =? g then Some d else dent (r_index (o_res st)) g)).
         rewrite r_index_oci_tag, dent_spec_oci_tag. destruct (d_dig d =? g); auto.
@@ -149,7 +151,8 @@ Section OciDig.
         destruct (d_dig d =? g) eqn:E; [|apply Hd]. apply N.eqb_eq in E. intro H. injection H as <-.
         split; auto. eapply wf2_canon; eauto. reflexivity.
       + destruct r; try apply Hd;
-          (destruct (is_some (get N.eqb (d_dig d) (o_blobs st))); [|apply Hd];
+          (destruct (foreign_digest_ref d _); [apply Hd|];
+           destruct (is_some (get N.eqb (d_dig d) (o_blobs st))); [|apply Hd];
            destruct (d_dig d =? g) eqn:E; [|apply Hd]; apply N.eqb_eq in E; intro H; injection H as <-;
            split; auto; eapply wf2_canon; eauto; reflexivity).
       + destruct (dent (r_index (o_res st)) g) as [d'|] eqn:E; [|discriminate].
@@ -167,7 +170,8 @@ Section OciDig.
           destruct (is_manifest (d_mt d)); [|now apply Hm].
           destruct (d_dig d =? g); [discriminate | now apply Hm].
       + destruct r; try (now apply Hm);
-          (destruct (is_some (get N.eqb (d_dig d) (o_blobs st))); [|now apply Hm];
+          (destruct (foreign_digest_ref d _); [now apply Hm|];
+           destruct (is_some (get N.eqb (d_dig d) (o_blobs st))); [|now apply Hm];
            destruct (d_dig d =? g); [discriminate | now apply Hm]).
       + destruct (get N.eqb (d_dig d) (o_blobs st)) eqn:Eb.
         * destruct (N.eq_dec g (d_dig d)) as [->|Hne]; [rewrite (get_del_eq N.eqb) in Hp; congruence|].
@@ -206,6 +210,7 @@ Section OciDig.
   Definition okd (t : othread) : Prop :=
     match ot_pc t with
     | OPush4 d => canon_desc U d /\ is_manifest (d_mt d) = true
+    | OTagIx d r => canon_desc U d /\ (r = RDig (d_dig d) \/ exists m, r = RName m)
     | OTag2 d r => canon_desc U d /\ exists m, r = RName m
     | OTag3 d r => canon_desc U d /\ (r = RDig (d_dig d) \/ exists m, r = RName m)
     | OUntag2 r => exists m, r = RName m
@@ -237,7 +242,7 @@ Section OciDig.
   Proof.
     intros Hok Hokd Hd Hnd [Hqd Hqm] Hndq Hbl Hwf.
     unfold othread_step, othread_ok, okd, pq, ps in *. destruct t as [pc ops]; cbn [ot_pc ot_ops] in *.
-    destruct pc as [|d c|d|d|d r|d r|r].
+    destruct pc as [|d c|d|d|d r|d r|d r|r].
     - (* between operations *)
       destruct ops as [|o rest]; [discriminate|].
       assert (Hwfo : wf2_op o) by (apply Hwf; unfold oremaining; simpl; now left).
@@ -276,16 +281,24 @@ Section OciDig.
           -- apply (HP0 (OPush2 d c) [] I I Hq0).
           -- apply (HP0 OIdle _ I I). apply Hq1; auto. simpl. rewrite <- Hbl. now rewrite E, V.
       + (* Tag *)
-        destruct r as [m|g0|]; try (apply (HP0 OIdle _ I I); apply Hq1; auto; fail).
+        destruct r as [m|g0|]; cbn [foreign_digest_ref]; try (apply (HP0 OIdle _ I I); apply Hq1; auto; fail).
         * destruct (is_some (get N.eqb (d_dig d) (o_blobs s))) eqn:E.
-          -- cbn [ref_eqb]. apply (HP0 (OTag2 d (RName m)) [] I); auto.
-             unfold okd; cbn [ot_pc]. split; [eapply wf2_canon; eauto; reflexivity | eauto].
+          -- cbn [ref_eqb]. destruct (is_manifest (d_mt d)).
+             ++ apply (HP0 (OTagIx d (RName m)) [] I); auto.
+                unfold okd; cbn [ot_pc]. split; [eapply wf2_canon; eauto; reflexivity | eauto].
+             ++ apply (HP0 (OTag2 d (RName m)) [] I); auto.
+                unfold okd; cbn [ot_pc]. split; [eapply wf2_canon; eauto; reflexivity | eauto].
           -- apply (HP0 OIdle _ I I). apply Hq1; auto. simpl. rewrite <- Hbl. now rewrite E.
-        * destruct Hwfo as [Hw1 Hw2]. simpl in Hw2. subst g0.
+        * destruct (g0 =? d_dig d) eqn:Eg; cbn [negb].
+          2:{ apply (HP0 OIdle _ I I). apply Hq1; auto. simpl. now rewrite Eg. }
+          apply N.eqb_eq in Eg. subst g0. destruct Hwfo as [Hw1 Hw2].
           destruct (is_some (get N.eqb (d_dig d) (o_blobs s))) eqn:E.
-          -- cbn [ref_eqb]. rewrite N.eqb_refl. apply (HP0 (OTag3 d (RDig (d_dig d))) [] I); auto.
-             unfold okd; cbn [ot_pc]. split; [exact (proj1 Hw1) | now left].
-          -- apply (HP0 OIdle _ I I). apply Hq1; [|split; simpl; auto]. simpl. rewrite <- Hbl. now rewrite E.
+          -- cbn [ref_eqb]. rewrite N.eqb_refl. destruct (is_manifest (d_mt d)).
+             ++ apply (HP0 (OTagIx d (RDig (d_dig d))) [] I); auto.
+                unfold okd; cbn [ot_pc]. split; [exact (proj1 Hw1) | now left].
+             ++ apply (HP0 (OTag3 d (RDig (d_dig d))) [] I); auto.
+                unfold okd; cbn [ot_pc]. split; [exact (proj1 Hw1) | now left].
+          -- apply (HP0 OIdle _ I I). apply Hq1; [|split; simpl; auto]. simpl. rewrite N.eqb_refl. simpl. rewrite <- Hbl. now rewrite E.
       + (* Untag *)
         destruct r as [m|g0|]; try (apply (HP0 OIdle _ I I); apply Hq1; auto; fail).
         * destruct (get ref_eqb (RName m) (r_index (o_res s))) as [d0|].
@@ -404,6 +417,24 @@ Section OciDig.
                 injection E0 as <-. congruence.
              ++ destruct (proj2 Hiff (or_intror (or_intror A))) as [Y|[(d0 & [E0|E0] & G0 & _)|Y]]; [now left | discriminate | | right; now right].
                 injection E0 as <-. congruence.
+    - (* Tag: graph.index of the manifest -- no effect on the resolver *)
+      destruct Hok as (Hcn & Hp). unfold present in Hp. destruct Hokd as [Hc Hr].
+      destruct (get N.eqb (d_dig d) (o_blobs s)) as [c|] eqn:E; [|congruence].
+      intro H. injection H as <- <- <- <- <-. cbn [ot_pc o_res]. split; [|split; [exact Hd|]].
+      + destruct Hr as [->|(m & ->)]; cbn [ref_eqb]; [rewrite N.eqb_refl|]; unfold okd; cbn [ot_pc]; split; eauto.
+      + intros g PQ PS _ Hiff. cbn [run fst].
+        assert (Q1 : ~ (exists d0, (OTagIx d r = OPush3 d0 \/ OTagIx d r = OPush4 d0) /\ d_dig d0 = g /\ is_manifest (d_mt d0) = true))
+          by (intros (d0 & [E0|E0] & _); discriminate).
+        assert (S1 : ~ (exists d0 m, OTagIx d r = OTag3 d0 (RName m) /\ d_dig d0 = g)) by (intros (d0 & m & E0 & _); discriminate).
+        assert (Q2 : ~ (exists d0, (ot_pc (mkOT (if ref_eqb r (RDig (d_dig d)) then OTag3 d r else OTag2 d r) ops) = OPush3 d0 \/
+                                    ot_pc (mkOT (if ref_eqb r (RDig (d_dig d)) then OTag3 d r else OTag2 d r) ops) = OPush4 d0) /\
+                                   d_dig d0 = g /\ is_manifest (d_mt d0) = true)).
+        { cbn [ot_pc]. intros (d0 & [E0|E0] & _); destruct (ref_eqb r (RDig (d_dig d))); discriminate. }
+        assert (S2 : ~ (exists d0 m, ot_pc (mkOT (if ref_eqb r (RDig (d_dig d)) then OTag3 d r else OTag2 d r) ops) = OTag3 d0 (RName m) /\ d_dig d0 = g)).
+        { cbn [ot_pc]. intros (d0 & m & E0 & _). destruct Hr as [->|(m0 & ->)]; cbn [ref_eqb] in E0.
+          - rewrite N.eqb_refl in E0. discriminate.
+          - discriminate. }
+        tauto.
     - (* Tag: the digest entry *)
       destruct Hokd as [Hc (m & ->)]. intro H. injection H as <- <- <- <- <-. cbn [ot_pc o_res]. rewrite r_index_tag.
       split; [unfold okd; cbn [ot_pc]; split; eauto|]. split.
@@ -427,7 +458,7 @@ Section OciDig.
                               if d_dig d =? g then Some d else dent (r_index (o_res q)) g).
       { intro g. rewrite run_cons. cbn [fst run]. rewrite (oci_step_dent q (Tag d r) Hw Hqd Hndq). cbn [qeff].
         rewrite <- Hbl. destruct (get N.eqb (d_dig d) (o_blobs s)); [|congruence].
-        destruct Hr as [->|(m & ->)]; reflexivity. }
+        destruct Hr as [->|(m & ->)]; cbn [foreign_digest_ref]; [rewrite N.eqb_refl|]; reflexivity. }
       split; [exact I|]. split.
       + destruct Hr as [->|(m & ->)].
         * eapply dwf_set; [intro g; apply dent_put_dig | reflexivity | exact Hc | exact Hd].
